@@ -334,6 +334,18 @@ def placementOk (pred obs : String) : Bool :=
   else if pred == "cpu" || pred == "silent" then obs == "cpu"
   else true
 
+/-- "…stays on the CPU **unchanged**": the record of the operator in the output file — [operator code, custom
+    code, option table type, non-default option fields, custom options, input names, output names], plain walker —
+    is the record of the source operator.  One reading is fixed here: a source operator that carries no option
+    table at all (type NONE) equals an output operator whose option table has no non-default field, whatever its
+    type (the writer always emits the operator's own, empty, table). -/
+def unchangedOnCpu (source output : List String) : Bool :=
+  match source, output with
+  | [c, cc, ot, f, co, i, o], [c', cc', ot', f', co', i', o'] =>
+    c == c' && cc == cc' && f == f' && co == co' && i == i' && o == o' &&
+      (ot == ot' || (ot == "0" && f == "-"))
+  | _, _ => false
+
 -- ------------------------------------------------------------------------------------------------
 -- report vs live objects
 
